@@ -102,6 +102,13 @@ def cases(sh, tier):
     for j, b in enumerate(P):
         for op in sorted(OPS):
             yield {"a": a, "b": b, "op": op, "form": "aa"}
+        # operate - edit one operand in place - operate again on the same two objects
+        yield {"a": a, "b": b, "op": "add", "form": "aa", "again": "assign_a"}
+        yield {"a": a, "b": b, "op": "sub", "form": "aa", "again": "relabel_b"}
+        # an earlier, unrelated library call that FAILED half-way (whatever it switched temporarily must be back in place)
+        if j % 3 == 0:
+            for pre in ("ds_op_fails", "ix_fails", "take_fails"):
+                yield {"a": a, "b": b, "op": "mul", "form": "aa", "pre": pre}
     for op in sorted(OPS):
         yield {"a": a, "op": op, "form": "as", "s": 2}
         yield {"a": a, "op": op, "form": "sa", "s": 2}
@@ -145,11 +152,63 @@ def check(case):
     sb = case["b"]
     B, rb = D.build_impl(sb), D.build_ref(sb)
     snapB = common.snap(B)
+    if case.get("pre"):
+        _failing_call(case["pre"])
     got = call(PYOP[op], A, B)
     if common.snap(A) != snapA or common.snap(B) != snapB:
         return bad("operand modified by a {} b".format(op))
     if isinstance(got, Raised):
         return bad("a {} b raised {}".format(op, got), klass="unexpected-exception")
+    r = _verify(got, ra, rb, op)
+    if not r["ok"] or not case.get("again"):
+        return r
+    # the SAME two objects combined once more after one of them was edited in place through the public API: the answer must follow the
+    # operands as they are now (nothing remembered from the first operation)
+    if case["again"] == "assign_a":
+        if ra.ndim == 0:
+            return r
+        key = tuple(l[0] for l in ra.labels)
+        res = call(A.__setitem__, key if len(key) > 1 else key[0], 7)
+        if isinstance(res, Raised):
+            return r
+        v2 = ra.vals.copy(); v2[(0,) * ra.ndim] = 7
+        ra = R.RA(ra.dims, ra.labels, v2)
+        what = "after a[{}] = 7".format(key)
+    else:
+        if rb.ndim == 0 or len(rb.labels[0]) < 2:
+            return r
+        l0 = list(rb.labels[0]); l0[0], l0[1] = l0[1], l0[0]
+        res = call(B.set_axis, D.np_labels(l0, sb["kinds"][0]), axis=0)
+        if isinstance(res, Raised):
+            return bad("b.set_axis({}, axis=0) raised {}".format(l0, res), klass="unexpected-exception")
+        rb = R.RA(rb.dims, [l0] + [list(l) for l in rb.labels[1:]], rb.vals)
+        what = "after b.set_axis({}, axis=0)".format(l0)
+    got2 = call(PYOP[op], A, B)
+    if isinstance(got2, Raised):
+        return bad("second a {} b ({}) raised {}".format(op, what, got2), klass="unexpected-exception")
+    r2 = _verify(got2, ra, rb, op)
+    if not r2["ok"]:
+        return bad("second a {} b, {}: {}".format(op, what, r2.get("detail")))
+    return ok("again-" + case["again"], nontrivial=True)
+
+
+def _failing_call(which):
+    """a library call on OTHER objects that raises half-way through (its exception is swallowed, as a user's try/except would)"""
+    from mc.common import Dataset, Axis
+    x = DimArray(np.arange(3.), axes=[Axis(np.array([1, 2, 3]), "p")])
+    if which == "ds_op_fails":       # Dataset - Dataset where one variable holds strings: the per-variable subtraction raises
+        ds = Dataset()
+        ds["v"] = x
+        ds["s"] = DimArray(np.array(["u", "v", "w"], dtype=object), axes=[Axis(np.array([1, 2, 3]), "p")])
+        r = call(lambda: ds - ds)
+    elif which == "ix_fails":
+        r = call(lambda: x.ix[99])
+    else:
+        r = call(x.take, {"nodim": 1})
+    return r
+
+
+def _verify(got, ra, rb, op):
     dims = list(ra.dims) + [d for d in rb.dims if d not in ra.dims]
     if not dims:
         e = OPS[op](ra.vals[()], rb.vals[()])
